@@ -62,13 +62,16 @@ func (proxy *multicastProxy) AddMember(m io.Closer) {
 			}
 		}
 
-		proxy.members = append(proxy.members, m)
 		proxy.cid = stream.StartConsume(proxy, media.RTPPacket,
 			"net = rtsp-multicast, "+proxy.multicastIP)
 		proxy.closed = false
 
 		proxy.logger.Info("multicast proxy started.")
 	}
+
+	// 每个成员都要登记（原先只登记了第一个）：流结束时要关闭所有成员的连接，
+	// 并且只有最后一个成员离开时才停止代理
+	proxy.members = append(proxy.members, m)
 }
 
 func (proxy *multicastProxy) ReleaseMember(m io.Closer) {
